@@ -55,7 +55,18 @@ Proof.
 Qed.
 
 (* and a string that is NOT well-formed for any message (same frame, one body byte changed: check code wrong) is
-   rejected with an error: the hypothesis of C02_rejects_rest is met by concrete non-trivial strings *)
-Example C02_rejected_example : exists e, decode
-  [126; 2; 0; 96; 2; 1; 0; 0; 0; 0; 0; 1; 114; 153; 132; 23; 125; 2; 125; 1; 0; 3; 0; 1; 125; 2; 27; 125; 126] = Err e.
-Proof. eexists. vm_compute. reflexivity. Qed.
+   rejected with an error: all three hypotheses of C02_rejects_rest are established for it (the third through
+   C02_accepts_exactly and the computed decode) and the conclusion is obtained by APPLYING C02_rejects_rest *)
+Definition ex_rejected : list N :=
+  [126; 2; 0; 96; 2; 1; 0; 0; 0; 0; 0; 1; 114; 153; 132; 23; 125; 2; 125; 1; 0; 3; 0; 1; 125; 2; 27; 125; 126].
+Example C02_rejected_example :
+  bytes ex_rejected /\ no_interior_delim ex_rejected /\ (forall m, ~ WellFormed ex_rejected m) /\
+  exists e, decode ex_rejected = Err e.
+Proof.
+  assert (Hb : bytes ex_rejected)
+    by (unfold bytes, ex_rejected; repeat (constructor; [reflexivity|]); constructor).
+  assert (Hn : no_interior_delim ex_rejected) by (unfold no_interior_delim; vm_compute; intuition discriminate).
+  assert (Hw : forall m, ~ WellFormed ex_rejected m).
+  { intros m H. apply (C02_accepts_exactly ex_rejected m Hb Hn) in H. vm_compute in H. discriminate H. }
+  repeat split; [exact Hb | exact Hn | exact Hw | exact (C02_rejects_rest ex_rejected Hb Hn Hw)].
+Qed.
